@@ -11,8 +11,10 @@ PID = "C03"
 LEAN_MODS = ["SwcVerif.Props.C03", "SwcVerif.Props.C03Cat", "SwcVerif.Props.C03Gen"]
 # Gen/AlgoCtor.lean: `_copy_and_apply` and the copying spellings of swc_utils/normalizer.py, regenerated on every run over a heap of frame
 # objects (the in-place procedures they apply live in AlgoNormalizer / AlgoSort / AlgoRepair, on AlgoCheckers / AlgoDsu)
-TRANSLATE_ALGO = ["AlgoDsu", "AlgoCheckers", "AlgoNormalizer", "AlgoSort", "AlgoRepair", "AlgoCtor"]
-DRIVER_FILES = ["SwcVerif/Model/AlgoRunCtor.lean", "SwcVerif/Model/PyCtor.lean", "SwcVerif/Model/AlgoRunRepair.lean"]
+# Gen/AlgoCtorInit.lean: `Tree.__init__` and `padding1d` over a heap of numpy buffers
+TRANSLATE_ALGO = ["AlgoDsu", "AlgoCheckers", "AlgoNormalizer", "AlgoSort", "AlgoRepair", "AlgoCtor", "AlgoCtorInit"]
+DRIVER_FILES = ["SwcVerif/Model/AlgoRunCtor.lean", "SwcVerif/Model/PyCtor.lean", "SwcVerif/Model/AlgoRunRepair.lean",
+                "SwcVerif/Model/AlgoRunCtorInit.lean"]
 THEOREMS = [
     "C03.wf_of_sorted", "C03.sort_wf", "C03.subtree_wf", "C03.prune_wf", "C03.redirect_wf", "C03.redirect_nosort_root_position",
     "C03.op_wf", "C03.pipeline_wf", "C03.inputs_untouched", "Represent.wf_represented", "Represent.represented_wf", "Represent.wf_subtree_represented",
@@ -767,7 +769,87 @@ class CopyingFrames(Suite):
         return len(case["ids"]) >= 2
 
 
-SUITES = [Pipeline(), CopyingFrames()]
+# ---- the constructor: which columns of a new tree are fresh storage and which ARE the arrays handed in ------------------------------------------
+DT = ["int32", "float32", "int64", "float64"]         # the dtype tags of Model/PyCtor.lean
+STD = {"id": 0, "type": 0, "x": 1, "y": 1, "z": 1, "r": 1, "pid": 0}     # column -> tag of the dtype Tree.__init__ asks for
+
+
+class Ctor(Suite):
+    """Tree(n, **columns): values, dtypes, order of the columns, and which result column shares storage with which array handed in"""
+    name = "c03.ctor"
+    case_timeout = 20
+
+    def cases(self, rng, tier, widen):
+        out = []
+        for _ in range(150 if (tier == "thorough" or widen) else 50):
+            n = rng.choice([0, 1, 2, 3, 3, 4, 5, 6])
+            keys = [k for k in list(STD) + ["foo", "bar"] if rng.random() < 0.55]
+            rng.shuffle(keys)
+            cols = []
+            for k in keys:
+                ln = max(0, n + rng.choice([-2, -1, 0, 0, 0, 1, 2]))
+                tag = STD.get(k, 3) if rng.random() < 0.6 else rng.randrange(4)
+                cols.append([k, tag, [rng.randint(-1, 9) for _ in range(ln)]])
+            out.append({"class": f"n{min(n, 3)}/given{min(len(keys), 4)}", "n": n, "cols": cols})
+        return out
+
+    def run(self, case):
+        from swcgeom.core import Tree
+
+        ins = {k: np.array(vals, dtype=DT[tag]) for k, tag, vals in case["cols"]}
+        keep = {k: a.copy() for k, a in ins.items()}
+        try:
+            t = Tree(case["n"], **ins)
+        except Exception as e:  # noqa: BLE001
+            return {"ctor_exc": type(e).__name__, "msg": str(e)[:160]}
+        names = list(ins)
+        res = {"ndata": [], "inputs_same": all(np.array_equal(ins[k], keep[k]) and ins[k].dtype == keep[k].dtype for k in ins)}
+        for k, a in t.ndata.items():
+            sh = [j for j, kk in enumerate(names) if np.shares_memory(a, ins[kk])]
+            res["ndata"].append([k, DT.index(str(a.dtype)) if str(a.dtype) in DT else -1, sh, [int(x) for x in a.tolist()],
+                                 bool(all(float(x) == int(x) for x in a.tolist()))])
+        return res
+
+    def lines(self, case, res):
+        a = f"gtreeinit n={case['n']} keys={','.join(c[0] for c in case['cols'])}" + "".join(
+            f" {k}={gen.ints(v)} {k}_t={tag}" for k, tag, v in case["cols"])
+        if "ctor_exc" in res:
+            return [(a, "E")]
+        # the definition generated from Tree.__init__ / padding1d on this run: key:dtype:the input it shares storage with (n = new, - = empty column):values
+        return [(a, " ; ".join(f"{k}:{dt}:{'-' if not vals else sh[0] if len(sh) == 1 else 'n' if not sh else 'many'}:{gen.ints(vals)}" for k, dt, sh, vals, _ in res["ndata"]))]
+
+    def oracle(self, case, res):
+        if "ctor_exc" in res:
+            return [("ctor-raises", f"Tree({case['n']}, …) raised {res['ctor_exc']}: {res['msg']}")]
+        out = []
+        if not res["inputs_same"]:
+            out.append(("ctor-writes-input", "the constructor changed an array it was given"))
+        n, given = case["n"], {k: (j, tag, vals) for j, (k, tag, vals) in enumerate(case["cols"])}
+        want_keys = list(STD) + [k for k in given if k not in STD]
+        if [r[0] for r in res["ndata"]] != want_keys:
+            out.append(("ctor-keys", f"columns {[r[0] for r in res['ndata']]}, expected {want_keys}"))
+        for k, dt, sh, vals, integral in res["ndata"]:
+            if k in STD:
+                if k in given:
+                    j, tag, g = given[k]
+                    want = (g + [1 if k == "r" else 0] * (n - len(g)))[:n]
+                    alias = [j] if (tag == STD[k] and len(g) >= n and n > 0 and len(g) > 0) else []
+                else:
+                    want = list(range(n)) if k == "id" else list(range(-1, n - 1)) if k == "pid" else [0] * n
+                    alias = []
+                if dt != STD[k] or vals != want or sorted(sh) != alias:
+                    out.append((f"ctor-column/{k}", f"n={n}, given {given.get(k)}: column {k} = dtype {dt}, {vals}, shares {sh}; expected dtype {STD[k]}, {want}, shares {alias}"))
+            elif k in given:
+                j, tag, g = given[k]
+                if dt != tag or vals != g or (sorted(sh) != [j] and len(g) > 0):
+                    out.append((f"ctor-extra/{k}", f"extra column {k} is not the array handed in"))
+        return out[:3]
+
+    def nontrivial(self, case, res):
+        return case["n"] >= 1 and len(case["cols"]) >= 1
+
+
+SUITES = [Pipeline(), CopyingFrames(), Ctor()]
 TECHNIQUE = ("Lean 4 theorem by induction over operation lists: each topology-level operation model (sort, subtree, prune, re-root, geometric, round trip, and — C03Cat — cat_tree with an arbitrary second tree in both translate modes) maps a "
              "well-formed parent list to a well-formed one (sorted where documented), built from the theorems of C05/C06/C07 and the representation lemma; heap-level "
              "freshness from C09 + pipelines of the real operations with well-formedness, input hashes and np.shares_memory checked after every step: random "
